@@ -79,7 +79,9 @@ func (u *decodeUnit) cycle(cycle int, app risc.Application, ctx *risc.Context) {
 			return
 		}
 		if runner.InstructionType() == risc.Ret {
+			// Nothing past the ret is decoded
 			u.ret = true
+			return
 		}
 	}
 }
